@@ -101,6 +101,8 @@ class StatefulLearner:
        fmt: 'ap' -> (action, prob) ; 'pmf' -> PMF ; 'kw' -> (action, prob, {'h': ...}) ; 'a' -> bare action
        fail = ('predict'|'learn'|'params', k): raise InjectedFailure at the k-th call (0-based) of that method."""
     def __init__(self, tag, fmt="ap", fail=None):
+        self.info = fmt == "info"                  # 'info': (action, prob) + writes CobaContext.learning_info in predict
+        if self.info: fmt = "ap"
         self.tag, self.fmt, self.fail = tag, fmt, fail
         self.h, self.n_pred, self.n_learn = 0, 0, 0
     @property
@@ -110,6 +112,9 @@ class StatefulLearner:
     def predict(self, context, actions):
         if self.fail and self.fail[0] == "predict" and self.n_pred == self.fail[1]: raise InjectedFailure(f"learner-predict tag={self.tag}")
         self.n_pred += 1
+        if self.info:
+            from coba.context import CobaContext
+            CobaContext.learning_info[f"info_{self.tag}"] = self.n_pred
         n = len(actions); i = self.h % n
         if self.fmt == "pmf":
             if n == 1: return [1.0]
